@@ -39,6 +39,7 @@ package operator
 
 //@ func BuildClusterMetadata
 //@   exact_strings ops
+//@   nested_closedness
 //@   requires cluster.Spec.Brokers.Replicas != nil ==> *cluster.Spec.Brokers.Replicas <= 1048576
 //@   requires forall t int :: 0 <= t && t < len(topics) ==> 0 <= topics[t].Spec.Partitions && topics[t].Spec.Partitions <= 1048576
 //@   at TopicIDForName#* havoc
@@ -76,10 +77,12 @@ package operator
 // not assign them and is cut).
 //@ func (r *ClusterReconciler) reconcileBrokerDeployment$1
 //@   exact_strings ops
+//@   nested_closedness
 //@   at brokerContainer#1 before assert [C39.statefulset_replicas_from_spec] (*sts).Spec.Replicas != nil && *(*sts).Spec.Replicas == ite((*cluster).Spec.Brokers.Replicas != nil, *(*cluster).Spec.Brokers.Replicas, 3) && ((*cluster).Spec.Brokers.Replicas != nil && *(*cluster).Spec.Brokers.Replicas >= 1 ==> *(*sts).Spec.Replicas == replicasOf(*cluster))
 //@   at brokerContainer#1 before assert [C39.statefulset_governing_service] (*sts).Spec.ServiceName == (*cluster).Name + "-broker-headless"
 //@   at brokerContainer#1 before stop
 //@ func (r *ClusterReconciler) reconcileBrokerDeployment
 //@   exact_strings ops
+//@   nested_closedness
 //@   at CreateOrUpdate#1 before assert [C39.statefulset_name] sts != nil && sts.Name == cluster.Name + "-broker" && sts.Namespace == cluster.Namespace
 //@   at CreateOrUpdate#1 before stop
